@@ -166,14 +166,16 @@ ctxnext(void)
 	size_t i;
 
 again:
-	for (f = arraylast(&ctx, sizeof(*f)); ctx.len; --f, ctx.len -= sizeof(*f)) {
+	for (;;) {
+		f = arraylast(&ctx, sizeof(*f));
+		if (!f)
+			return NULL;
 		if (f->ntoken)
 			break;
 		if (f->macro)
 			macrodone(f->macro);
+		ctx.len -= sizeof(*f);
 	}
-	if (ctx.len == 0)
-		return NULL;
 	m = f->macro;
 	if (m && m->kind == MACROFUNC) {
 		/* try to expand macro parameter */
